@@ -55,7 +55,7 @@ Definition to_proc_in (fi : file_input) : proc_in :=
 
 Definition file_size (fi : file_input) : nat := length (fi_file fi).
 
-(* ------------------------------------------------------------------ the family of dumps behind F-C03h *)
+(* ------------------------------------------------------------------ the family of dumps that shows the quadratic budget is tight *)
 (* [m] thread-list entries that all cite the same [m] stack bytes (zeros), which the file holds once behind 2048 bytes of
    header / directory / system info / context / module list and the thread list itself; every thread has the same context:
    ip = 8192, sp = start of the stack *)
